@@ -10,13 +10,13 @@ Plus a vocabulary check: every emitted operation must be a key of the real def-u
 import json
 
 from .. import common, evidence, findings, observe, runner
-from ..gen import pygen
+from ..gen import cfamgen, pygen
 from ..ref import girvm, pyexec
 
 PID = "C02"
 BATCH = 100
-LANGS = ["python", "javascript", "java", "c", "php", "go"]
-EXT = {"python": "py", "javascript": "js", "java": "java", "c": "c", "php": "php", "go": "go"}
+LANGS = ["python", "javascript", "java", "c", "php", "go", "typescript"]     # TypeScript: the JavaScript rendering through its own frontend
+EXT = {"python": "py", "javascript": "js", "java": "java", "c": "c", "php": "php", "go": "go", "typescript": "ts"}
 
 SIMPLE = [("a = b", {"assign"}), ("a = a + 1", {"binop"}), ("b = a * 2", {"binop"}), ("a = a - b", {"binop"}), ("b = 0", {"assign"}),
           ("a += b", {"augassign"}), ("out(a)", {"out"}), ("out(b)", {"out"})]
@@ -114,6 +114,8 @@ def c_lines(nodes, ind, lang):
 
 
 def render(lang, name, body):
+    if lang == "typescript":
+        lang = "javascript"
     if lang == "python":
         return render_py(name, body)
     lines = c_lines(body, 1, lang)
@@ -133,6 +135,8 @@ def render(lang, name, body):
 
 
 def wrap(lang, methods):
+    if lang == "typescript":
+        lang = "javascript"
     if lang == "java":
         return "class M {\n    static void out(int k) {}\n    static void out(String k) {}\n" + "\n".join(methods) + "}\n"
     if lang == "php":
@@ -174,6 +178,11 @@ RICH = {
         "c": "int h3(int a, int b, int c) {\n    return a * 100 + b * 10 + c;\n}\nint rich_args(int x, int y) {\n    return h3(x, y, 7) + h3(7, x, y) * 1000;\n}\n",
     },
 }
+
+
+for _fam in RICH.values():
+    if "javascript" in _fam:
+        _fam["typescript"] = _fam["javascript"]
 
 
 def run_mixed(batch):
@@ -317,6 +326,28 @@ def main():
             chunk = list(range(k, min(k + BATCH, len(progs))))
             methods = [render(lang, f"entry_{i}", progs[i][0]) for i in chunk]
             batches.append({"lang": lang, "source": wrap(lang, methods), "expected": [(f"entry_{i}", ref[i]) for i in chunk], "idx": chunk})
+    # C-family construct programs (mc/gen/cfamgen.py): reference = CPython on the desugared Python rendering
+    cfam_index = set()
+    cfam_langs = {}
+    for body in cfamgen.programs(2 if quick else 3):
+        i = len(progs)
+        progs.append((body, cfamgen.feats(body) | {"cfam"}, sum(1 + sum(len(b) for b in n.bodies) for n in body)))
+        cfam_index.add(i)
+        cfam_langs[i] = cfamgen.langs_of(body)
+        name = f"entry_{i}"
+        env, outs, err = pyexec.load(cfamgen.render_py(name, body))
+        exp = []
+        for args in INPUTS:
+            o, r = pyexec.call(env, outs, name, args, budget=2000)
+            exp.append((args, None if r[0] in ("budget", "exc") else (o, r)))
+        ref.append(exp)
+    for lang in cfamgen.ALL:
+        idxs = [i for i in sorted(cfam_index) if lang in cfam_langs[i]]
+        for k in range(0, len(idxs), BATCH):
+            chunk = idxs[k:k + BATCH]
+            batches.append({"lang": lang, "source": wrap(lang, [cfamgen.render(lang, f"entry_{i}", progs[i][0]) for i in chunk]),
+                            "expected": [(f"entry_{i}", ref[i]) for i in chunk], "idx": chunk})
+    n_core = len(progs) - len(cfam_index)
     # rich programs: reference from CPython on the Python text
     rich_ref = {}
     for fam, by in RICH.items():
@@ -340,7 +371,7 @@ def main():
             idxs.append(len(progs) - 1)
         batches.append({"lang": lang, "source": wrap(lang, methods), "expected": [("rich_" + rich_index[i], ref[i]) for i in idxs], "idx": idxs})
     # one mixed-language project: every frontend in a single invocation must emit what it emits alone
-    mixed_chunk = list(range(0, min(40, len(progs) - len(rich_index))))
+    mixed_chunk = list(range(0, min(40, n_core)))
     batches.append({"lang": "mixed", "idx": mixed_chunk,
                     "sources": {l: wrap(l, [render(l, f"entry_{i}", progs[i][0]) for i in mixed_chunk]) for l in LANGS if l != "go"},
                     "expected": [(f"entry_{i}", ref[i]) for i in mixed_chunk], "source": ""})
@@ -351,7 +382,12 @@ def main():
         lang = b["lang"]
         st = stats["by_lang"].setdefault(lang, {"programs": 0, "agreeing_evaluations": 0, "mismatching_programs": 0})
         if res.get("__status__") or res.get("fatal"):
-            rep.violation(f"{lang}:batch-failed", f"{res.get('fatal') or res.get('__status__')} {res.get('traceback', '')[-300:]}", {"lang": lang, "source": b["source"][:1500]}, size=idx, ident="")
+            text = f"{res.get('fatal') or res.get('__status__')} {res.get('traceback', '')[-300:]}"
+            import re
+            fr = re.findall(r'(\w+\.py)", line \d+, in (\w+)', text)
+            ex = re.search(r"exception: (\w+)", text)
+            sig = (ex.group(1) if ex else "failed") + ("@" + fr[-1][0] + ":" + fr[-1][1] if fr else "")
+            rep.violation(f"{lang}:batch-failed:{sig}", text, {"lang": lang, "source": b["source"][:1500]}, size=idx, ident="")
             continue
         for op in res.get("unknown_ops", []):
             rep.violation(f"{lang}:operation-outside-vocabulary:{op}", f"the {lang} frontend emits `{op}`, which no def-use handler of the language-independent "
@@ -366,7 +402,8 @@ def main():
         for l2, name, status, info, i in entries:
             body, feats, size = progs[i]
             tag = lang if lang != "mixed" else f"mixed-run:{l2}"
-            srcf = (lambda: RICH[rich_index[i]][l2]) if body is None else (lambda: render(l2, name, body))
+            srcf = (lambda: RICH[rich_index[i]][l2]) if body is None else (lambda: cfamgen.render(l2, name, body)) if i in cfam_index \
+                else (lambda: render(l2, name, body))
             st["programs"] += 1
             tested.setdefault(tag, []).append(set(feats))
             if status != "ok":
@@ -383,10 +420,13 @@ def main():
                 src = srcf()
                 control = set(feats) & {"if", "else", "while", "for", "break", "continue", "return"}
                 gfeats = control if control else set(feats)
+                if i in cfam_index:
+                    gfeats = set(feats) - {"cfam"}
                 if kind == "unsupported":
                     kind = "unsupported:" + got[1][1].replace(" ", "-")
                     gfeats = set()            # one finding per unsupported operation, not per program shape
-                pytext = RICH[rich_index[i]]["python"] if body is None else render_py(name, body)
+                pytext = RICH[rich_index[i]]["python"] if body is None else cfamgen.render_py(name, body) if i in cfam_index else render_py(name, body)
+
                 rep.feature_violation(f"{tag}:{kind}", gfeats, f"input {args}: reference (CPython on the Python rendering) {exp}; GIR of the {l2} rendering -> {got}; "
                                       f"program:\n{src}", {"lang": l2, "source": src, "python": pytext, "args": list(args)}, size=size * 1000 + len(src), text=src)
     for lang, ts in tested.items():
